@@ -33,6 +33,7 @@ type lit struct {
 	rl       rlwe.ParametersLiteral // LogN, Q/P/LogQ/LogP, LogNthRoot, RingType, Xs, Xe (NTTFlag/DefaultScale are scheme-set)
 	t        uint64                 // bgv plaintext modulus
 	logScale int                    // ckks
+	noNTT    bool                   // rlwe only: NTTFlag=false (elements are kept out of the NTT domain by default)
 }
 
 // construct calls the scheme's public constructor.
@@ -48,7 +49,7 @@ func (l lit) construct() (interface{}, error) {
 		return p, err
 	}
 	r := l.rl
-	r.NTTFlag = true
+	r.NTTFlag = !l.noNTT
 	p, err := rlwe.NewParametersFromLiteral(r)
 	return p, err
 }
